@@ -74,16 +74,19 @@ Section Bbs.
     if negb (Nat.eqb (length b) 32) then Err else try_opt (f_of_be S b).
   Definition sk_to_bytes (sk : Fd) : bytes := f_to_be S sk.
 
-  (* BBSplusPublicKey::from_bytes : &bytes[0..96] then from_compressed *)
+  (* BBSplusPublicKey::from_bytes : <[u8; 96]>::try_from(bytes), from_compressed, identity rejected *)
   Definition pk_from_bytes (b : bytes) : outcome G2t :=
-    let* s := slice b 0 96 in try_opt (g2_dec P s).
+    if negb (Nat.eqb (length b) 96) then Err else
+    let* pk := try_opt (g2_dec P b) in
+    if g2_eqb P pk (g2_zero P) then Err else Ok pk.
   Definition pk_to_bytes (pk : G2t) : bytes := g2_enc P pk.
   (* to_coordinates / from_coordinates ([u8;96] each) *)
   Definition pk_to_xy (pk : G2t) : bytes * bytes :=
     let u := g2_enc_unc P pk in (firstn 96 u, skipn 96 u).
   Definition pk_from_xy (x y : bytes) : outcome G2t :=
-    if negb (Nat.eqb (length x) 96 && Nat.eqb (length y) 96) then Err
-    else try_opt (g2_dec_unc P (x ++ y)).
+    if negb (Nat.eqb (length x) 96 && Nat.eqb (length y) 96) then Err else
+    let* pk := try_opt (g2_dec_unc P (x ++ y)) in
+    if g2_eqb P pk (g2_zero P) then Err else Ok pk.
 
   (* ---------------------------------------------------------------- calculate_domain *)
   Definition calculate_domain (pk : G2t) (Q1 : G1t) (H : list G1t) (header : option bytes)
@@ -109,6 +112,7 @@ Section Bbs.
     if negb (Nat.eqb (length b) 80) then Err else
     let* A := try_opt (g1_dec P (sub b 0 48)) in
     let* e := try_opt (f_of_be S (sub b 48 80)) in
+    if (g1_eqb P A (g1_zero P) || feqb S e (f0 S))%bool then Err else
     Ok {| sig_A := A; sig_e := e |}.
 
   Definition compute_B (g : generators) (Q1 : G1t) (H : list G1t) (domain : Fd) (ms : list Fd) : G1t :=
@@ -165,7 +169,8 @@ Section Bbs.
   (* update_signature(&self, sk, old, new, update_index, n); counts are caller-supplied usize *)
   Definition update_signature (s : signature) (sk : Fd) (old_m new_m : bytes) (update_index n : N)
     : outcome signature :=
-    let* n1 := uadd n 1 in
+    let* n1 := try_opt (checked_add n 1) in
+    if n <=? update_index then Err else
     let* g := gens_create (N.to_nat n1) (c_api_id c) in
     let* ui1 := uadd update_index 1 in
     if len (g_values g) <=? ui1 then Err else
@@ -201,6 +206,7 @@ Section Bbs.
     mapM (fun ch => try_opt (f_of_be S ch)) (chunks_exact 32 b).
 
   Definition pok_from_bytes (b : bytes) : outcome pok :=
+    if (Nat.ltb (length b) 272 || negb (Nat.eqb (Nat.modulo (length b - 272) 32) 0))%bool then Err else
     let* s0 := slice b 0 48 in let* Abar := try_opt (g1_dec P s0) in
     let* s1 := slice b 48 96 in let* Bbar := try_opt (g1_dec P s1) in
     let* s2 := slice b 96 144 in let* D := try_opt (g1_dec P s2) in
@@ -210,6 +216,7 @@ Section Bbs.
     let* rest := slice_from b 240 in
     let* ms := scalars_of_chunks rest in
     let* (m_cap, chal) := try_opt (pop_last ms) in
+    if (g1_eqb P Abar (g1_zero P) || g1_eqb P Bbar (g1_zero P) || g1_eqb P D (g1_zero P))%bool then Err else
     Ok {| p_Abar := Abar; p_Bbar := Bbar; p_D := D; p_e_cap := e_cap; p_r1_cap := r1_cap;
           p_r3_cap := r3_cap; p_m_cap := m_cap; p_chal := chal |}.
 
@@ -298,6 +305,8 @@ Section Bbs.
     let U := length (p_m_cap p) in
     let R := length di in
     let L := (U + R)%nat in
+    if (g1_eqb P (p_Abar p) (g1_zero P) || g1_eqb P (p_Bbar p) (g1_zero P) ||
+        g1_eqb P (p_D p) (g1_zero P))%bool then Err else
     if existsb (fun i => N.of_nat L <=? i) di then Err else
     if negb (Nat.eqb (length dm) R) then Err else
     if negb (Nat.eqb (length (g_values g)) (L + 1)) then Err else
